@@ -361,6 +361,11 @@ class Parser:
             return ("ty", "Slice", [el])
         if self.t.k != "id":
             self.fail(f"unsupported type syntax at `{self.t.v}`")
+        if self.at_id("fn") and self.peek().v == "(":
+            self.i = match_close(self.toks, self.i + 1) + 1
+            if self.eat("->"):
+                self.ty()
+            return ("ty", "FnPtr", [])
         name = self.ident()
         args = []
         while True:
@@ -1066,6 +1071,9 @@ class Area:
         n, args = ty[1], ty[2]
         if n == "Self":
             n, args = self_ty, []
+        if n in self.spec.get("aliases", {}):
+            toks = tokenize(self.spec["aliases"][n])
+            return self.lean_ty(Parser(toks, 0, "<spec>").ty(), self_ty, top)
         m = self.spec.get("types", {})
         if n in m:
             r = m[n]
@@ -1315,6 +1323,8 @@ class FnTr:
             return None
         if ty[0] == "ty" and ty[1] == "Self":
             return T(self.self_ty)
+        if ty[0] == "ty" and ty[1] in self.a.spec.get("aliases", {}):
+            return self.tyspec(self.a.spec["aliases"][ty[1]])
         if ty[0] == "ty":
             return ("ty", ty[1], [self.resolve_ty(x) for x in ty[2]])
         return ("tuple", [self.resolve_ty(x) for x in ty[1]])
@@ -1385,7 +1395,8 @@ class FnTr:
                 return True
             if n and n[0] == "let" and len(n) == 5 and n[4] is not None:
                 return True
-            if n and n[0] == "mcall" and isinstance(n[2], str) and (n[2] in self.MUTATING or self.is_sibling_mut(n)):
+            if n and n[0] == "mcall" and isinstance(n[2], str) and (n[2] in self.MUTATING or self.is_sibling_mut(n)
+                                                                   or (n[2] in self.a.spec.get("mutarg_methods", {}) and len(n[3]) == 1)):
                 return True
         return False
 
@@ -1549,6 +1560,11 @@ class FnTr:
                     return f"let {env['self'][0]} := {call};\n{k(env, None)}"
                 r = self.fresh()
                 return f"let {r} := {call};\nlet {env['self'][0]} := {r}.1;\n{k(env, Val(r + '.2', self.resolve_ty(fi['ret'])))}"
+            ma = self.a.spec.get("mutarg_methods", {}).get(name)
+            if ma is not None and len(args) == 1:
+                rv = self.ex(recv, env)
+                av = self.ex(args[0], env)
+                return self.assign_to(args[0], Val(ma.format(self.par(rv.lean), self.par(av.lean)), av.ty), env, k)
             if name in self.ATOMIC_RMW:
                 rv = self.ex(recv, env)
                 at = self.ATOMIC_TY.get(ty_name(rv.ty))
@@ -1623,7 +1639,7 @@ class FnTr:
         return {n: env2.get(n, v) if env2.get(n, v)[0] == v[0] else v for n, v in env.items()}
 
     def assign_to(self, lhs, rv, env, k):
-        while lhs[0] in ("paren", "deref") or (lhs[0] == "tfield" and lhs[1] == ("path", ["self"]) and lhs[2] == 0
+        while lhs[0] in ("paren", "deref", "ref") or (lhs[0] == "tfield" and lhs[1] == ("path", ["self"]) and lhs[2] == 0
                                                and self.fspec.get("self_is_tuple_of_self")):
             lhs = lhs[1]
         if lhs[0] == "path" and len(lhs[1]) == 1 and lhs[1][0] in env:
@@ -1771,6 +1787,9 @@ class FnTr:
             if f in d.get("all_fields", []):
                 self.fail(f"field `{n}.{f}` is used by the function but not kept by the target spec")
             self.fail(f"struct `{n}` has no field `{f}`")
+        ft = self.a.spec.get("field_types", {}).get(n, {})
+        if f in ft:
+            return self.tyspec(ft[f])
         if n is None:
             self.fail(f"cannot determine the type of the receiver of field access `.{f}`")
         self.fail(f"field access `.{f}` on type `{n}`")
@@ -2109,6 +2128,8 @@ class FnTr:
             fi = self.a.fninfo.get((None, segs[0]))
         elif len(segs) == 2:
             fi = self.a.fninfo.get((self.self_ty if segs[0] == "Self" else segs[0], segs[1]))
+        elif segs[0] == "crate":
+            fi = self.a.fninfo.get((None, segs[-1]))
         if fi is not None:
             if fi.get("failed"):
                 self.fail(f"calls `{key}`, whose translation failed")
@@ -2161,7 +2182,7 @@ class FnTr:
         if rn in self.ATOMIC_TY and name == "load":
             return Val(r.lean, T(self.ATOMIC_TY[rn]))
         for sm in self.a.spec.get("methods", []):
-            if sm["name"] == name and (sm.get("on") is None or sm["on"] == rn) and len(args) == sm["lean"].count("{") - 1:
+            if sm["name"] == name and (sm.get("on") is None or sm["on"] == rn) and len(args) == max([int(x) for x in re.findall(r"\{(\d+)\}", sm["lean"])] + [0]):
                 argv = [self.par(self.ex(x, env).lean) for x in args]
                 return Val(sm["lean"].format(R, *argv), self.tyspec(sm.get("ty")) if sm.get("ty") != "same" else r.ty)
 
@@ -2221,6 +2242,9 @@ class FnTr:
                 return Val(f"List.{name}? {R}", T("Option", el))
             if name == "find":
                 return Val(f"List.find? {self.closure(args[0], [el], env)} {R}", T("Option", el))
+            if name == "find_map":
+                f = self.closure(args[0], [el], env)
+                return Val(f"List.findSome? {f} {R}", self.last_closure_ty)
             if name == "position":
                 return Val(f"List.findIdx? {self.closure(args[0], [el], env)} {R}", T("Option", T("usize")))
             if name == "contains":
